@@ -19,13 +19,13 @@ def gen_long_quiet(r, tier):
         lo = r.range(20, 120)
         hi = r.range(lo + 20, 255)
         ops.append("#case long-quiet")
-        ops.append(f"w.new kind=hwmon ns=1 win={r.pick([1, 2, 5])} cmin={lo} minp={lo} maxp={hi} startp={lo} avg=x408f400000000000 map={ident} "
+        ops.append(f"w.new kind=hwmon ns=1 win=1 cmin={lo} minp={lo} maxp={hi} startp={lo} avg=x408f400000000000 map={ident} "
                    f"loop=direct m=- resp=id pwm={lo} rpm=900 origmode=2 origpwm=0")
         now = 1000
         curve = 0
-        for ep in range(r.range(1, 3)):           # stall episodes
+        for ep in range(r.range(1, 2)):           # short stall episodes: one to a few raises each
             ops.append("w.dev rpm=0")
-            for _ in range(r.range(6, 30)):
+            for _ in range(r.range(2, 6)):
                 ops.append("w.poll")
                 now += 200_000_000
                 ops.append(f"w.cycle curve={curve} now={now}")
